@@ -29,7 +29,7 @@ def run(ctx, prop):
     if len(cases) != res.distinct:
         raise vlib.ToolError("case extraction lost cases: %d printed, %d distinct states" % (len(cases), res.distinct))
     vlib.build(["vh-analysis"])
-    path = os.path.join(ctx.work, "cases.ndjson")
+    path = ctx.workfile("cases.ndjson")
     with open(path, "w") as f:
         for c in cases:
             f.write(json.dumps(c) + "\n")
